@@ -199,9 +199,10 @@ fn mk_user_func() -> Value {
 // through the variant makes the first word a plain constant again (measured: 6 s).
 // Semantically this is just `Value::BuiltinFunc{name: "b", f: trivial_builtin}`.
 fn mk_builtin() -> Value {
+    let text: &str = "b";
     let mut v = Value::BuiltinFunc{name: String::new(), f: trivial_builtin};
     match &mut v {
-        Value::BuiltinFunc{name, ..} => { *name = String::from("b"); },
+        Value::BuiltinFunc{name, ..} => { *name = String::from(text); },
         _ => unreachable!(),
     }
     v
